@@ -7,13 +7,14 @@ export GOFLAGS=-mod=mod GOPROXY=off GOSUMDB=off GOTOOLCHAIN=local
 cmd=$(grep -ho 'go test[^`]*' $d/notes.txt | head -1)
 pkg=$(echo "$cmd" | grep -o '\./[A-Za-z0-9_/]*' | tail -1)
 run=$(echo "$cmd" | sed -n "s/.*-run '\{0,1\}\([A-Za-z0-9_|]*\)'\{0,1\}.*/\1/p")
+tags=""; echo "$cmd" | grep -q -- "-tags verif" && tags="-tags verif"
 git -C /repo worktree add -q --detach $wt HEAD || exit 2
 cp $d/demo_test.go $wt/$pkg/zz_seeded_demo_test.go
 cd $wt
-clean=$(timeout 300 go test -vet=off -count=1 -timeout 200s -run "$run" $pkg 2>&1 | grep -E '^(ok|FAIL|---)' | tr '\n' ' ')
+clean=$(timeout 300 go test $tags -vet=off -count=1 -timeout 200s -run "$run" $pkg 2>&1 | grep -E '^(ok|FAIL|---)' | tr '\n' ' ')
 git apply $d/patch.diff || { echo "$1: patch does not apply"; cd /; git -C /repo worktree remove --force $wt; exit 1; }
 build=$(go build ./... 2>&1 | tail -1)
-mut=$(timeout 300 go test -vet=off -count=1 -timeout 200s -run "$run" $pkg 2>&1 | grep -E '^(ok|FAIL|--- FAIL)' | head -3 | tr '\n' ' ')
+mut=$(timeout 300 go test $tags -vet=off -count=1 -timeout 200s -run "$run" $pkg 2>&1 | grep -E '^(ok|FAIL|--- FAIL)' | head -3 | tr '\n' ' ')
 cd /
 git -C /repo worktree remove --force $wt
 echo "$1: applies=yes build=[${build:-ok}] demo-on-clean=[$clean] demo-with-change=[$mut]"
